@@ -535,7 +535,9 @@ func ignoreTree(r *rng, tmp string, idx int) {
 	}
 	var ign []string
 	for j, n := 0, 1+r.below(3); j < n; j++ {
-		igs := []string{"vendor", "*", "**/gen", "src/*", "a", "?", "lib/**", "*/b", "x.d", "**", "a/b", "src", "s\\[1\\]", "a\\[1]", "we\\\\ird", "src?s[1]", "a?b", "s[1]"}
+		igs := []string{"vendor", "*", "**/gen", "src/*", "a", "?", "lib/**", "*/b", "x.d", "**", "a/b", "src", "s\\[1\\]", "a\\[1]", "we\\\\ird", "src?s[1]", "a?b", "s[1]",
+			// patterns that are not in clean path form: they match exactly what they spell, nothing else
+			"gen/", "./src", "a//b", "vendor/.", "a/*/", "lib/../a", "/a", "src/./gen"}
 		ign = append(ign, igs[r.below(len(igs))])
 	}
 	var all []string
@@ -757,6 +759,114 @@ func bodyGlobTree(r *rng, tmp string, idx int) {
 	}
 	check("//:t", rootQs, rootEntries)
 	check("//sub:s", subQs, subEntries)
+}
+
+// glob() after Reload on the same Project: the sources of a glob()-sourced target must follow the tree
+func reloadGlobTree(r *rng, tmp string, idx int) {
+	root := filepath.Join(tmp, fmt.Sprintf("r%d", idx))
+	os.MkdirAll(root, 0o755)
+	defer os.RemoveAll(root)
+	write := func(rel string) {
+		p := filepath.Join(root, filepath.FromSlash(rel))
+		if st, err := os.Stat(p); err == nil && st.IsDir() {
+			return
+		}
+		if os.MkdirAll(filepath.Dir(p), 0o755) == nil {
+			os.WriteFile(p, []byte("x"), 0o644)
+		}
+	}
+	randPath := func() string {
+		parts := []string{}
+		for d, depth := 0, r.below(3); d < depth; d++ {
+			parts = append(parts, genName(r))
+		}
+		return strings.Join(append(parts, genName(r)), "/")
+	}
+	for i, n := 0, 3+r.below(6); i < n; i++ {
+		write(randPath())
+	}
+	var inc, exc []string
+	for j, n := 0, 1+r.below(2); j < n; j++ {
+		inc = append(inc, genSetPattern(r))
+	}
+	if r.below(2) == 0 {
+		inc = append(inc, "**")
+	}
+	for j, n := 0, r.below(2); j < n; j++ {
+		exc = append(exc, genSetPattern(r))
+	}
+	exc = append(exc, "BUILD.dawn", ".dawnconfig")
+	os.WriteFile(filepath.Join(root, ".dawnconfig"), nil, 0o644)
+	os.WriteFile(filepath.Join(root, "BUILD.dawn"), []byte(fmt.Sprintf("@target(sources=glob(%s, exclude=%s))\ndef t():\n    pass\n", slist(inc), slist(exc))), 0o644)
+	proj, err := dawn.Load(root, &dawn.LoadOptions{})
+	if err != nil {
+		stats["reloadglob_load_errors"]++
+		return
+	}
+	for step := 0; step < 3; step++ {
+		if step > 0 {
+			// change the tree: add files, remove files
+			for i, n := 0, 1+r.below(3); i < n; i++ {
+				write(randPath())
+			}
+			if fs := listEntries(root); len(fs) > 0 {
+				victim := fs[r.below(len(fs))]
+				if victim != "BUILD.dawn" && victim != ".dawnconfig" {
+					os.RemoveAll(filepath.Join(root, filepath.FromSlash(victim)))
+				}
+			}
+			if err := proj.Reload(); err != nil {
+				stats["reloadglob_reload_errors"]++
+				return
+			}
+		}
+		var files []string
+		filepath.WalkDir(root, func(path string, d fs.DirEntry, err error) error {
+			if err != nil || path == root {
+				return nil
+			}
+			rel := filepath.ToSlash(path[len(root)+1:])
+			if rel == ".dawn" {
+				return fs.SkipDir
+			}
+			if !d.IsDir() {
+				files = append(files, rel)
+			}
+			return nil
+		})
+		sort.Strings(files)
+		var got []string
+		for _, t := range proj.Targets() {
+			if l := t.Label(); l.Kind == "" && l.Name == "t" {
+				for _, d := range t.Dependencies() {
+					if d.Kind == "source" {
+						p := strings.TrimPrefix(d.Package, "//")
+						if p != "" {
+							p += "/"
+						}
+						got = append(got, p+d.Name)
+					}
+				}
+			}
+		}
+		sort.Strings(got)
+		var want []string
+		for _, p := range files {
+			if refSet(inc, p) && !refSet(exc, p) {
+				want = append(want, p)
+			}
+		}
+		stats["reloadglob_queries"]++
+		emit("glob.reloadselect", "select "+pats(inc)+" "+pats(exc)+" "+hxs(files), "ok "+hxs(got))
+		if strings.Join(got, "\x00") != strings.Join(want, "\x00") {
+			nviol++
+			bb, _ := json.Marshal(map[string]any{"kind": "glob-after-reload-selection-differs", "detail": fmt.Sprintf("after %d reload(s): got %q want %q", step, got, want),
+				"patterns": inc, "path": "", "input": map[string]any{"builtin": "glob as sources, after Reload", "include": inc, "exclude": exc, "tree": files}})
+			if nviol <= 20 {
+				fmt.Fprintf(out, "V\t%s\n", bb)
+			}
+		}
+	}
 }
 
 func watchTree(r *rng, tmp string, idx int) {
@@ -981,6 +1091,8 @@ func main() {
 		ignoreTree(r, tmp, i)
 		if i%2 == 0 {
 			bodyGlobTree(r, tmp, i)
+		} else {
+			reloadGlobTree(r, tmp, i)
 		}
 	}
 	nw := 3
